@@ -104,6 +104,7 @@ def parseOp (t : String) : Option Op :=
   | ["nb", fd] => do pure (.nb (← fd.toNat?))
   | ["rlim"] => some .rlim
   | ["tmp"] => some .tmp
+  | ["isx", p] => some (.isx (if p = "-" then [""] else parsePath p))
   | ["fill", fd] => do pure (.fill (← fd.toNat?))
   | ["sel", fd, d] => do pure (.sel (← fd.toNat?) (d == "w"))
   | _ => none
@@ -118,7 +119,7 @@ def showObs (op : Op) : Obs → String
   | .pair a b => s!"={a},{b}"
   | .bytes b => "=" ++ showBytes b
   | .flag b => match op with
-    | .nb _ | .sel _ _ => if b then "=1" else "=0"
+    | .nb _ | .sel _ _ | .isx _ => if b then "=1" else "=0"
     | _ => if b then "=e" else "=-"
   | .node n => showNode n
   | .fifo => "=fifo"
@@ -217,6 +218,7 @@ def parseSOp (t : String) : SOp :=
   | ["mask"] => .mask
   | ["caught"] => .caught
   | ["exit", n] => .exit (n.toNat?.getD 0)
+  | ["klast", s] => if s = "0" then .klast none else (parseSig s).elim .bad (fun x => .klast (some x))
   | _ => .bad
 
 def showSObs : SObs → String
@@ -224,6 +226,7 @@ def showSObs : SObs → String
   | .disp d => "=" ++ showDisp d
   | .sigs l => "=" ++ (if l.isEmpty then "-" else "+".intercalate (l.map Sig.name))
   | .unknown => "?"
+  | .esrch => "ESRCH"
 
 /-- everything the model column of a `P` case shows goes through `Signal.sstep` / `Signal.runChild` -/
 def runTop (ops : List String) : String :=
